@@ -13,6 +13,19 @@ class ShapeError(Exception):
     pass
 
 
+INDEX_NAMES = {}
+INDEX_EXPRS = {}
+
+
+def intern_index(x: Expr) -> str:
+    """stable pseudo index variable '@k' for a data-dependent index expression"""
+    if x not in INDEX_NAMES:
+        name = f"@{len(INDEX_NAMES) + 1}"
+        INDEX_NAMES[x] = name
+        INDEX_EXPRS[name] = x
+    return INDEX_NAMES[x]
+
+
 def to_arr(v: Val) -> Optional[Val]:
     """Coerce python sequences of numbers / arrays to Arr where possible (np.array semantics)."""
     if isinstance(v, (Arr, Sc, Blocks, DiagMat)):
@@ -258,7 +271,7 @@ def index(v: Val, idx: list, interp=None) -> Val:
         it = idx[0]
         if it[0] in ("int", "expr") and len(idx) == 1:
             return Sc(v.elem)
-        if it[0] in ("slice", "full") and len(idx) == 1:
+        if it[0] in ("slice", "full", "mask") and len(idx) == 1:
             return Bag(v.elem, None, v.is_sorted, v.src, v.parts)
         return Unknown("index-bag", (v.elem,))
     if isinstance(v, Concat):
@@ -314,10 +327,10 @@ def index(v: Val, idx: list, interp=None) -> Val:
             elif x[0] == "num" and float(x[1]).is_integer():
                 return index(v, [("int", int(x[1])) if j == items.index(it) else jt for j, jt in enumerate(items)], interp)
             else:
-                # data-dependent scalar index: an arbitrary element along this axis
-                nv = fresh("q")
+                # data-dependent scalar index: the row selected is named after the index expression, so two
+                # reads at the same index refer to the same row
+                nv = intern_index(x)
                 e = sym.subst_ivar(e, iv, (nv, 0))
-                e = sym.At(v.uid, e, (x,)) if e[0] != "at" else sym.At(e[1], e[2], e[3] + (x,))
         elif kind == "slice":
             lo, hi, st = it[1], it[2], it[3]
             if sp.concrete is not None and all(b is None or (b[0] == "num" and float(b[1]).is_integer())
@@ -398,6 +411,8 @@ def index_blocks(b: Blocks, idx: list) -> Val:
 
 
 def flatten(v: Val) -> Val:
+    if isinstance(v, Bag):
+        return v
     if isinstance(v, (Blocks, DiagMat)):
         return Bag(generic_elem(v), None, False, getattr(v, "uid", None))
     if isinstance(v, Arr):
